@@ -1195,6 +1195,9 @@ int32 matrixSslLoadHelloExtension(tlsExtension_t *ext,
             current->extData = psMalloc(ext->pool, length);
             if (current->extData == NULL)
             {
+                /* Leave the entry empty: a length without data would be
+                   copied from NULL when the list is used */
+                current->extLen = 0;
                 return PS_MEM_FAIL;
             }
             Memcpy(current->extData, extension, length);
